@@ -65,7 +65,13 @@ def main():
         out["demo_clean_rc"] = rc0
         base = None
         if do_tests:
-            base, _ = run_tests(wt)
+            head = sh(["git", "-C", "/repo", "rev-parse", "--short", "HEAD"])[1].strip()
+            cache = f"/tmp/seed_base_{head}.json"
+            if os.path.exists(cache):
+                base = json.load(open(cache))
+            else:
+                base, _ = run_tests(wt)
+                json.dump(base, open(cache, "w"))
         rc, o = sh(["git", "-C", wt, "apply", os.path.join(d, "patch.diff")])
         out["patch_applies"] = rc == 0
         if rc != 0:
